@@ -71,11 +71,20 @@ class P(ServeProp):
                     j = rnd.randrange(len(data)); data = data[:j] + bytes([rnd.choice([0, 10, 13, 45, 255])]) + data[j + 1:]; kind = "mut"
                 out.append("mp %s %s # kind=%s esc=%d" % (hx(bd), hx(data), kind, len(esc)))
             else:
-                data = bd.encode() + b"".join(b"\r\n" + ('Content-Disposition: form-data; name="%s"\r\n\r\n' % nm).encode() + b + b"\r\n" + bd.encode()
-                                              for nm, (hs, b) in zip("abcdefgh", parts))
-                req = ("POST /form-multipart-enctype-post-method HTTP/1.1\r\nContent-Type: multipart/form-data; boundary=" + bd + "\r\n\r\n").encode() + data
+                # through the server: the standard shape a browser sends (delimiter lines "--" + boundary, the last one followed by "--",
+                # a Content-Length), the boundary parameter as browsers send it; the echo page lists every part
+                text = rnd.random() < 0.6 and bool(esc)
+                if text:
+                    # text fields, as a form sends them: the echo page must list every one of them, in order
+                    tb = [rnd.choice([b"", b"v", b"hello world", "é😀".encode(), b"line1\r\nline2", b"a=b&c", b"--", b" lead", b"x\r", b"\n", b"trail ", b"-", b"\r\n", "日本".encode(), b"%41", b"a\tb"]) for _ in parts]
+                    parts = [(hs, b if clean(b) else b"ok") for (hs, _), b in zip(parts, tb)]
+                wire = b"".join(b"--" + bd.encode() + b"\r\n" + ('Content-Disposition: form-data; name="%s"\r\n\r\n' % nm).encode() + b + b"\r\n"
+                                for nm, (hs, b) in zip("abcdefgh", parts)) + b"--" + bd.encode() + b"--\r\n"
+                ctv = "multipart/form-data; boundary=" + bd if text else rnd.choice(["multipart/form-data; boundary=" + bd] * 3 + ['multipart/form-data; boundary="%s"' % bd, "multipart/form-data; charset=utf-8; boundary=" + bd])
+                req = ("POST /form-multipart-enctype-post-method HTTP/1.1\r\nContent-Type: " + ctv + "\r\nContent-Length: %d\r\n\r\n" % len(wire)).encode() + wire
                 t = gs.Tree(); t.ents.append(("D", "outer/root"))
-                out.append(gs.serve_case(rnd, tree=t, cors="all", raw_req=req[:9900], meta="echo=1"))
+                fits = len(req) <= 9900
+                out.append(gs.serve_case(rnd, tree=t, cors="all", raw_req=req[:9900], meta="echo=1 fits=%d np=%d" % (fits, len(parts)) + ((" want=" + (b"".join(nm.encode() + b" is " + b + b" \r\n" for nm, (hs, b) in zip("abcdefgh", parts)).hex() or "-")) if text and fits else "")))
         return out
 
     def canon_model(self, line, out):
@@ -104,6 +113,13 @@ class P(ServeProp):
             want = "OK " + f[2]
             got = out.split(" | ", 1)[1]
             return None if got == want else "round-trip-differs"
+        if f[0].startswith("serve") and "want" in meta(line):
+            raw = self.raw(out)
+            r = httpcanon.parse_response(raw) if raw else None
+            if r is None or r["status"] != 200:
+                return "well-formed-form-post-status-%s" % (r["status"] if r else None)
+            want = b"" if meta(line)["want"] == "-" else bytes.fromhex(meta(line)["want"])
+            return None if r["body"] == want else "echoed-parts-differ"
         if f[0] == "mp":
             m = meta(line)
             if m.get("esc") == "0":
